@@ -27,6 +27,8 @@ type c06Op struct {
 
 	// zeroMap: try to map the shared zero frame through an entry point
 	Entry string `json:"entry,omitempty"` // map mapTemp mapRegion identity pdtActive pdtInactive
+	// region ops: the request ends Part bytes into the page of the zero frame (0: covers it wholly)
+	Part  int    `json:"part,omitempty"`
 	Lead  int    `json:"lead,omitempty"`  // region ops: pages before the zero frame inside the request
 	P     [4]int `json:"p"`               // target page (pool indices)
 
@@ -204,9 +206,9 @@ func c06Run(c c06Case) (fail *vlib.Failure, rs c06Stats) {
 					_, err = MapTemporary(zero)
 					flags |= FlagRW
 				case "mapRegion":
-					_, err = MapRegion(zero-mm.Frame(op.Lead), uintptr(op.Lead+1)*4096, flags)
+					_, err = MapRegion(zero-mm.Frame(op.Lead), c06RegionSize(op), flags)
 				case "identity":
-					_, err = IdentityMapRegion(zero-mm.Frame(op.Lead), uintptr(op.Lead+1)*4096, flags)
+					_, err = IdentityMapRegion(zero-mm.Frame(op.Lead), c06RegionSize(op), flags)
 				case "pdtActive":
 					err = activePDT.Map(mm.Page(page), zero, flags)
 				case "pdtInactive":
@@ -484,6 +486,7 @@ func c06GenOp(t *rapid.T) c06Op {
 		op.Entry = rapid.SampledFrom([]string{"map", "mapTemp", "mapRegion", "identity", "pdtActive", "pdtInactive"}).Draw(t, "entry")
 		op.Flags = c04GenFlags(t)
 		op.Lead = rapid.IntRange(0, 2).Draw(t, "lead")
+		op.Part = rapid.SampledFrom([]int{0, 0, 1, 100, 2048, 4095}).Draw(t, "part")
 	case "cowPage", "recow":
 		op.Page = rapid.IntRange(0, 12).Draw(t, "again")
 		op.Shared = rapid.IntRange(0, 2).Draw(t, "shared")
@@ -517,6 +520,15 @@ func c06GenOp(t *rapid.T) c06Op {
 		op.Info = rapid.Uint64Range(0, 64).Draw(t, "info")
 	}
 	return op
+}
+
+// c06RegionSize is the size of a region request whose last page - the one that falls on the zero
+// frame - is covered wholly or only by its first op.Part bytes.
+func c06RegionSize(op c06Op) uintptr {
+	if op.Part > 0 && op.Part < 4096 {
+		return uintptr(op.Lead)*4096 + uintptr(op.Part)
+	}
+	return uintptr(op.Lead+1) * 4096
 }
 
 func TestVerifC06(t *testing.T) {
